@@ -226,7 +226,7 @@ func c02r2(c *core.Ctx) {
 	})
 	good, n := true, 0
 	core.Instrs(pf, func(i ssa.Instruction) {
-		if r, ok := i.(*ssa.Return); ok && len(r.Results) == 2 && core.IsNilConst(r.Results[1]) {
+		if r, ok := i.(*ssa.Return); ok && len(res(r)) == 2 && core.IsNilConst(res(r)[1]) {
 			n++
 			if !core.Dominated(r, authOK) {
 				good = false
